@@ -31,4 +31,10 @@ CLAIMED = {
         "note": "Trusted: Lean kernel, translator, correspondence harness; did_url_parser is modelled (transliterated) not verified; its buffer setters are modelled at component level; serde glue.",
         "technique": "Lean 4 proof (induction over scanning loops, grammar equivalence) over regenerated character classes + correspondence",
     },
+    "C17": {
+        "text": "Lean 4 theorems on top of the C10 DID model, constants regenerated from iota_did.rs / network_name.rs: every accepted IOTA DID has method iota, a network name of 1..MAX_LENGTH lowercase alphanumerics, a tag that decodes to exactly 32 bytes, is in normal form (default network omitted), recomposes as did:iota:[net:]tag, contains no '/', '?', '#'; parse never panics (the expect in normalize is unreachable); two accepted DIDs are equal iff networks and tags are equal, and (lower-case input) tags are equal iff tag bytes are; IotaDID::new never panics for a valid network name and exposes exactly the given 32 bytes and name (uses a completeness theorem for the DID parser: did:<[a-z0-9]+>:<id chars> is accepted verbatim). Hex encode/decode round trip and lower-case injectivity proved.",
+        "design_ref": "DESIGN.md §7.17",
+        "note": "Trusted: Lean kernel, translator, correspondence harness; Unicode lower-casing done by the harness (std) and checked against the implementation; prefix-hex/hex modelled; C10 trusted base.",
+        "technique": "Lean 4 proof (shape + completeness of the parser on the constructor's output) over regenerated constants + correspondence",
+    },
 }
